@@ -223,9 +223,9 @@ func topString(f *mp4.File, e string) string {
 	var ss []string
 	pos := uint64(0)
 	for _, c := range f.Children {
-		t := fmt.Sprintf("%s:%d:%d", hx.Hex([]byte(c.Type())), pos, c.Size())
+		t := fmt.Sprintf("%s:%x:%x", hx.Hex([]byte(c.Type())), pos, c.Size())
 		if m, ok := c.(*mp4.MdatBox); ok {
-			t += fmt.Sprintf(":%d:%d:%d:%d", m.StartPos, b2i(m.LargeSize), len(m.Data), m.GetLazyDataSize())
+			t += fmt.Sprintf(":%x:%d:%d:%x", m.StartPos, b2i(m.LargeSize), len(m.Data), m.GetLazyDataSize())
 		}
 		ss = append(ss, t)
 		pos += c.Size()
